@@ -174,23 +174,23 @@ type caseResult struct {
 }
 
 type executor struct {
-	c     Case
-	off   map[string]bool // quarantined features
-	dir   string          // scratch directory (definition files for the include route)
-	base  *runtime.VM
-	bp    *parser.Parser
-	temps []*runtime.TempVM // index 1..
-	m     *Model
-	out   strings.Builder
-	unc   data.Control
-	prev  map[string]string // vm|chan|name -> last observed value
-	res   *caseResult
-	seen  map[string]bool
-	step  int
-	curOp string
+	c       Case
+	off     map[string]bool // quarantined features
+	dir     string          // scratch directory (definition files for the include route)
+	base    *runtime.VM
+	bp      *parser.Parser
+	temps   []*runtime.TempVM // index 1..
+	m       *Model
+	out     strings.Builder
+	unc     data.Control
+	prev    map[string]string // vm|chan|name -> last observed value
+	res     *caseResult
+	seen    map[string]bool
+	step    int
+	curOp   string
 	defined map[int]bool // names defined by some VM so far
-	trace []string // human-readable log (filled only when verbose)
-	verb  bool
+	trace   []string     // human-readable log (filled only when verbose)
+	verb    bool
 }
 
 var serialRe = regexp.MustCompile(`def_(\d+)\.php$`)
